@@ -28,10 +28,22 @@
      - mrun = Ok: an Err of the model is undefined behaviour of the code (e.g. a component id without description).
        This hypothesis is DISCHARGED at the end of this file (C02_model_run_total, C02_unlocked_refines_total): it follows
        from the other hypotheses plus reg_b (every component id the script names has a description), and reg_b is
-       needed (C02_model_run_total_refuted_without_registration). *)
+       needed (C02_model_run_total_refuted_without_registration).
+
+   EXTENDED unlocked alphabet (second half of this file; proofs/ManagerExtFrames.v, ManagerExtInv.v, ManagerExtClear.v,
+   ManagerExtClone.v, ManagerExtBuild.v, ManagerExtMain.v): the same three statements (C02_unlocked_ext_refines_on,
+   C02_unlocked_ext_refinement, C02_unlocked_ext_observations) for ALL scripts over ManagerExtMain.alpha_e =
+       alpha_b + destroy (deferred; takes effect at the next update) + update + clearArchetype (no shared ids) + clear
+       + clone + one builder edit (begin(e)/begin() .assign<..>(v)... .remove<..>()... .end()), all issued unlocked,
+   with the invariant MInvE = MInv + `marked s` is the specification's marked set (C02_unlocked_ext_marked) + every
+   archetype mask lies inside the 128-bit set + the specification's entity table has one entry per live issue number.
+   Additional hypothesis of alpha_e, needed and harmless: creation / clearArchetype masks are below 2^128 (the masks of the
+   C++ are std::bitset<128>; the model's N has no width, C02_mask_width_is_a_model_artefact), and a builder assignment
+   names a component id below 128 of a type whose value the driver can write (as for assign in alpha_b). *)
 Require Import Coq.Lists.List Coq.NArith.NArith Coq.ZArith.ZArith Coq.Arith.Arith Coq.Bool.Bool.
 From Mustache Require Import Res Manager MgrSpec Refine Palette.
-From Mustache.proofs Require Import ManagerBasics ManagerMoves ManagerProj ManagerInv ManagerMain ManagerWorlds.
+From Mustache.proofs Require Import ManagerBasics ManagerMoves ManagerProj ManagerInv ManagerMain ManagerWorlds
+  ManagerExtFrames ManagerExtInv ManagerExtMain.
 Import ListNotations.
 
 (* ---- function level ------------------------------------------------------------------------------------------ *)
@@ -245,3 +257,99 @@ Proof.
   intros ops [<-|[<-|[]]]; (repeat split; try (vm_compute; reflexivity)); intros typed; destruct typed; vm_compute; reflexivity.
 Qed.
 Print Assumptions C02_model_run_total_refuted_without_registration.
+(* ================================================================================================================ *)
+(* the extended unlocked alphabet: + destroy (deferred), update, clearArchetype, clear, clone, builder edits           *)
+
+(* the statement of Refine.v *)
+Theorem C02_unlocked_ext_refines_on : forall typed n cis ops s hs,
+  cis_ok cis -> forallb (alpha_e cis) ops = true ->
+  mrun typed n cis ops = Ok (s, hs) -> x_viol (xrun n cis ops) = 0 -> (N.of_nat (length hs) < 16777000)%N ->
+  refines_on typed n cis ops = true.
+Proof. exact ext_refines_on. Qed.
+Print Assumptions C02_unlocked_ext_refines_on.
+
+(* handle by handle *)
+Theorem C02_unlocked_ext_refinement : forall typed n cis ops s hs,
+  cis_ok cis -> forallb (alpha_e cis) ops = true ->
+  mrun typed n cis ops = Ok (s, hs) -> x_viol (xrun n cis ops) = 0 -> (N.of_nat (length hs) < 16777000)%N ->
+  length hs = x_count (xrun n cis ops) /\
+  forall k,
+    match find_ent (xrun n cis ops) k with
+    | Some e => exists e', abs_ent s k (nth k hs null_handle) = Some e' /\ ent_match e e' = true
+    | None => abs_ent s k (nth k hs null_handle) = None
+    end.
+Proof. exact ext_refinement. Qed.
+Print Assumptions C02_unlocked_ext_refinement.
+
+(* through hasComponent and getComponent<const T> on the final state *)
+Theorem C02_unlocked_ext_observations : forall typed n cis ops s hs,
+  cis_ok cis -> forallb (alpha_e cis) ops = true ->
+  mrun typed n cis ops = Ok (s, hs) -> x_viol (xrun n cis ops) = 0 -> (N.of_nat (length hs) < 16777000)%N ->
+  forall k c, c < MASK_BITS ->
+    step s (OHas (nth k hs null_handle) c) = Ok (s, RBool (spec_has (xrun n cis ops) k c)) /\
+    exists v, step s (OGetConst (nth k hs null_handle) c) = Ok (s, RCell (spec_has (xrun n cis ops) k c) v) /\
+              forall e w, find_ent (xrun n cis ops) k = Some e -> In (c, w) (e_comps e) -> cell_le w v = true.
+Proof. exact ext_observations. Qed.
+Print Assumptions C02_unlocked_ext_observations.
+
+(* the entities waiting for update(): handle #k is in marked_for_delete_ exactly when the specification has k marked *)
+Theorem C02_unlocked_ext_marked : forall typed n cis ops s hs,
+  cis_ok cis -> forallb (alpha_e cis) ops = true ->
+  mrun typed n cis ops = Ok (s, hs) -> x_viol (xrun n cis ops) = 0 -> (N.of_nat (length hs) < 16777000)%N ->
+  forall k, k < length hs -> (In (nth k hs null_handle) (marked s) <-> In k (x_marked (xrun n cis ops))).
+Proof. exact ext_marked. Qed.
+Print Assumptions C02_unlocked_ext_marked.
+
+(* ---- the hypotheses are satisfiable: every new operation is used non-trivially ---------------------------------- *)
+Definition ex_script_ext : list xop :=
+  [XoCreate 0 3%N [] false; XoCreate 0 3%N [] true; XoCreate 0 3%N [] false; XoSet 0 1 41%Z; XoSet 1 1 42%Z; XoSet 2 0 43%Z;
+   (* deferred destroy of #0: it stays alive (and is written) until update; afterwards its id is reused by #3 *)
+   XoDestroy 0 0; XoSet 0 0 5%Z; XoUpdate; XoCreate 0 7%N [] false;
+   (* stale, repeated and not-yet-issued requests; #3 is destroyed at once and its id reused by #4 BEFORE the update,
+      which must not touch #4 *)
+   XoDestroy 0 0; XoDestroy 0 3; XoDestroy 0 17; XoDestroyNow 0 3; XoCreate 0 3%N [] false; XoUpdate;
+   (* clone #1 -> #5; then the source moves to another archetype and the clone is written *)
+   XoClone 1; XoAssign 0 1 2 None; XoSet 5 1 77%Z;
+   (* clearArchetype of {0,1} with the three members #2 #4 #5, then a creation in it: #6 *)
+   XoClearArch 3%N []; XoCreate 0 3%N [] false;
+   (* builder edits: #1 gets components 3 and 4 and loses 0 (5 is not there); a new entity #7 with two components;
+      a bare one #8 *)
+   XoBuild 0 (Some 1) [(3, 7%Z); (4, 9%Z)] [0; 5];
+   XoBuild 0 None [(1, 11%Z); (0, 12%Z)] [];
+   XoBuild 0 None [] [];
+   (* clone of a built entity (#9), clone through a dead handle (nothing issued), a builder edit that only removes,
+      a deferred destroy overtaken by clearArchetype, update *)
+   XoClone 7; XoClone 0; XoBuild 0 (Some 6) [] [1]; XoDestroy 0 9; XoClearArch 1%N []; XoUpdate;
+   XoClone 7;
+   (* clear, and life afterwards *)
+   XoClear; XoCreate 0 3%N [] false; XoBuild 0 (Some 11) [(2, 8%Z)] [1]].
+
+Example C02_ext_nonvacuous :
+  cis_ok ex_cis /\ forallb (alpha_e ex_cis) ex_script_ext = true /\ x_viol (xrun 1 ex_cis ex_script_ext) = 0 /\
+  (forall typed, exists s hs, mrun typed 1 ex_cis ex_script_ext = Ok (s, hs) /\ (N.of_nat (length hs) < 16777000)%N /\
+     hs = [(0, 0); (1, 0); (2, 0); (0, 1); (0, 2); (3, 0); (0, 3); (3, 1); (2, 1); (4, 0); (4, 1); (2, 2)]%N /\
+     map (is_valid s) hs = [false; false; false; false; false; false; false; false; false; false; false; true]) /\
+  (* the world just before clear() *)
+  map (fun e => (e_k e, e_comps e)) (x_ents (xrun 1 ex_cis (firstn 31 ex_script_ext))) =
+    [(1, [(1, Some 42%Z); (2, Some 1002%Z); (3, Some 7%Z); (4, Some 9%Z)]);
+     (7, [(0, Some 12%Z); (1, Some 11%Z)]); (8, []);
+     (10, [(0, Some 12%Z); (1, Some 11%Z)])] /\
+  (forall typed, exists s hs, mrun typed 1 ex_cis (firstn 31 ex_script_ext) = Ok (s, hs) /\
+     map (is_valid s) hs = [false; true; false; false; false; false; false; true; true; false; true]) /\
+  (* and at the end *)
+  map (fun e => (e_k e, e_comps e)) (x_ents (xrun 1 ex_cis ex_script_ext)) = [(11, [(0, None); (2, Some 8%Z)])].
+Proof.
+  split; [exact ex_cis_ok|]. split; [vm_compute; reflexivity|]. split; [vm_compute; reflexivity|]. split.
+  - intros typed. destruct typed; eexists; eexists; (split; [vm_compute; reflexivity|]); (split; [vm_compute; reflexivity|]); split; vm_compute; reflexivity.
+  - split; [vm_compute; reflexivity|]. split; [|vm_compute; reflexivity].
+    intros typed. destruct typed; eexists; eexists; (split; [vm_compute; reflexivity|]); vm_compute; reflexivity.
+Qed.
+
+(* ---- why alpha_e bounds the masks ----------------------------------------------------------------------------- *)
+(* a mask with a bit beyond the 128 of std::bitset<128> cannot be written in the C++; the model keeps it as the key of
+   an archetype whose component list is empty, the specification sees an entity without components *)
+Example C02_mask_width_is_a_model_artefact :
+  refines_on false 1 ex_cis [XoCreate 0 (2 ^ 200)%N [] false; XoClearArch (2 ^ 200)%N []] = false /\
+  x_viol (xrun 1 ex_cis [XoCreate 0 (2 ^ 200)%N [] false; XoClearArch (2 ^ 200)%N []]) = 0 /\
+  alpha_e ex_cis (XoCreate 0 (2 ^ 200)%N [] false) = false /\ alpha_b ex_cis (XoCreate 0 (2 ^ 200)%N [] false) = true.
+Proof. vm_compute. repeat split. Qed.
